@@ -101,7 +101,9 @@ prop(
 )
 prop(
     "C15",
-    level="proof",
+    # not "proof": one of the crash obligations is refuted on the pinned tree (recorded finding), so the property is decided
+    # as "holds for histories with >= 1 committed generation, fails for the first generation"
+    level="other",
     static=True,
     bounded="c15",
     technique=STATIC_TECH + "; bounded: kill -9 at every file-system event of create in a subprocess, then info/verify/create",
